@@ -187,7 +187,12 @@ temporary_stack_initializer::~temporary_stack_initializer() noexcept
 temporary_stack& foonathan::memory::get_temporary_stack(std::size_t initial_size)
 {
     if (!temp_stack)
+    {
         temp_stack = temporary_stack_list_obj.create(initial_size);
+        // ODR-use it in this thread as well: create() may have adopted the stack of a finished thread,
+        // then no list node was constructed here and the detector would never mark the stack as free again
+        (void)&thread_exit_detector;
+    }
     return *temp_stack;
 }
 
